@@ -326,12 +326,13 @@ def check_d1(case, rec):
         except OverflowError:
             uniq = False
         rec.fail('d1-normalise', f'{str(a)!r} spelled {text!r}: read-back cannot be normalised: {type(e).__name__}: {e}',
-                 sig='ring-system-without-unique-mcb' if not uniq else type(e).__name__)
+                 sig='aromatic-P-ambiguity' if wl.aromatic_p_ambiguity(a) else
+                 ('ring-system-without-unique-mcb' if not uniq else type(e).__name__))
         return
     if molgen.map_snapshot(molgen.snapshot(a), mp) != molgen.snapshot(b):
         want, got = molgen.map_snapshot(molgen.snapshot(a), mp), molgen.snapshot(b)
         d = [(n, want[n], got.get(n)) for n in want if want[n] != got.get(n)][:3]
-        sig = ''
+        sig = 'aromatic-P-ambiguity' if wl.aromatic_p_ambiguity(a) else ''
         if sum(bb.order == 4 for *_, bb in a.bonds()) != sum(bb.order == 4 for *_, bb in b.bonds()):
             from ..oracles import mcb
             try:
@@ -448,11 +449,16 @@ def check_rxn(case, rec):
                 molgen.normalise(a)
             except molgen.Reject:
                 continue
-            ok, _ = rec.guard('rxn-normalise', molgen.normalise, b)
-            if not ok:
+            from ..oracles import wl
+            try:
+                molgen.normalise(b)
+            except Exception as e:
+                rec.fail('rxn-normalise', f'{text!r}: {str(a)!r} cannot be normalised after reading: {type(e).__name__}: {e}',
+                         sig='aromatic-P-ambiguity' if wl.aromatic_p_ambiguity(a) else type(e).__name__)
                 return
             if molgen.map_snapshot(molgen.snapshot(a), mp) != molgen.snapshot(b):
-                rec.fail('rxn-atomwise', f'{text!r}: {str(a)!r} read as {str(b)!r}')
+                rec.fail('rxn-atomwise', f'{text!r}: {str(a)!r} read as {str(b)!r}',
+                         sig='aromatic-P-ambiguity' if wl.aromatic_p_ambiguity(a) else '')
                 return
             d = molgen.compare_stereo(a, b, mp)
             if d:
